@@ -478,6 +478,7 @@ Print Assumptions cycle_vectors_step.
 Print Assumptions cycle_loop_vectors.
 Print Assumptions cycle_signals_records.
 Print Assumptions cycle_loop_records.
+Check ghw_body_example.
 Print Assumptions ghw_body_run.
 Print Assumptions section_cycles.
 Print Assumptions section_snapshot.
